@@ -3,6 +3,7 @@
 From Coq Require Import List String Ascii Bool Arith Permutation Sorted.
 From Spil Require Import Base.Str Base.Dict Base.Outcome Regex.Re Conf.Conf Conf.WF Sid.Sid
   Search.Unfold Search.FindList Search.Finders Search.GlobProofs Search.FindListProofs Search.UnfoldProofs Search.FindersProofs FS.Fs.
+From Spil Require Import Conf.Routing Sid.SidProofs Path.UnambiguousDefs FS.Fs Search.Finders Search.TreeListDefs Search.TreeListProofs Data.Data Data.SidLevelDefs Search.LastAgreeProofs.
 From SpilGen Require Hamlet.
 Import ListNotations.
 Local Open Scope string_scope.
@@ -71,3 +72,46 @@ Example C09_instance :
   = Ok ["hamlet/a/fx/a-b/model"].
 Proof. vm_compute. reflexivity. Qed.
 Print Assumptions C09_instance.
+
+(** ** the answer does not depend on which Finder serves it (Search/LastAgreeProofs.v): over a data set materialised as a tree,
+    the tree finder and the list finder give the IDENTICAL list for a ">" search (guards computed: the "*" versions of the
+    searches are good path searches and their types cover the matching entities) *)
+
+Theorem C09_tree_and_list_agree : forall c Ld cfg E F, load c = Some Ld -> wf_loadedb Ld = true -> paths_unambiguousb Ld = true ->
+  dataset_okb Ld cfg E F = true ->
+  forall qs l l', last_agree_guardb Ld cfg E qs = true ->
+  sorted_search_g Ld (paths_star Ld F cfg) qs = Ok l ->
+  sorted_search_g Ld (fun q => star_search q (map s_string E)) qs = Ok l' -> l = l'.
+Proof. exact last_agree_sortedb. Qed.
+Print Assumptions C09_tree_and_list_agree.
+
+(* at the level of Finder.find: FindInPaths and FindInList *)
+Theorem C09_find_agree : forall c Ld cfg E F, load c = Some Ld -> wf_loadedb Ld = true -> paths_unambiguousb Ld = true ->
+  dataset_okb Ld cfg E F = true ->
+  forall s qs idp l l', find_searches Ld s = Ok qs -> last_agree_guardb Ld cfg E qs = true -> existsb has_gt qs = true ->
+  ffind Ld F (FPaths idp cfg) s = Ok l -> find_list Ld (map s_string E) s = Ok l' -> l = l'.
+Proof. exact last_agree_findb. Qed.
+Print Assumptions C09_find_agree.
+
+(* ... and FindInAll (every typed search routed to the path finder) *)
+Theorem C09_find_all_agree : forall c Ld cfg E F, load c = Some Ld -> wf_loadedb Ld = true -> paths_unambiguousb Ld = true ->
+  dataset_okb Ld cfg E F = true ->
+  forall Rt id s qs l l', unfold_search Ld s false false = Ok qs -> find_searches Ld s = Ok qs ->
+  routed_tob Rt id cfg qs = true -> last_agree_guardb Ld cfg E qs = true -> existsb has_gt qs = true ->
+  find_all Ld Rt F s = Ok l -> find_list Ld (map s_string E) s = Ok l' -> l = l'.
+Proof. exact last_agree_find_allb. Qed.
+Print Assumptions C09_find_all_agree.
+
+(* instance: versions v001, v002 of one task, each with a scene and a movie file; the last version's files *)
+Definition mk9 (s : string) : sid := match Sid Hamlet.the_loaded s with Ok x => x | Raise _ => empty_sid end.
+Definition E9 : list sid := map mk9
+  ["hamlet/a/char/ophelia/model/v001/w/ma"; "hamlet/a/char/ophelia/model/v001/w/mov";
+   "hamlet/a/char/ophelia/model/v002/w/ma"; "hamlet/a/char/ophelia/model/v002/w/mov"].
+Definition F9 : fs := map (fun e => (match sid_path Hamlet.the_loaded e "" with Ok (Some p) => p | _ => "" end, File CEmpty)) E9.
+Definition qs9 : list sid := match unfold_search Hamlet.the_loaded "hamlet/a/char/ophelia/model/>/w/*" false false with Ok l => l | Raise _ => [] end.
+Example C09_agree_instance :
+  dataset_okb Hamlet.the_loaded "" E9 F9 = true /\ last_agree_guardb Hamlet.the_loaded "" E9 qs9 = true /\ existsb has_gt qs9 = true /\
+  sorted_search_g Hamlet.the_loaded (paths_star Hamlet.the_loaded F9 "") qs9 = Ok ["hamlet/a/char/ophelia/model/v002/w/mov"] /\
+  sorted_search_g Hamlet.the_loaded (fun q => star_search q (map s_string E9)) qs9 = Ok ["hamlet/a/char/ophelia/model/v002/w/mov"].
+Proof. vm_compute. repeat split; reflexivity. Qed.
+Print Assumptions C09_agree_instance.
